@@ -305,17 +305,20 @@ open RotoV.Glue RotoV.Gen.GlueLoops in
 /-- the drop function of one declared type on its own: per variant the `(offset, kind)` of
     what it emits, `r` = runtime drop function, `g` = call of a generated drop function -/
 def glueShallow (ds : Array GTy) : String :=
+  -- what `call_drop_of` emits for a field, from its extracted statements
   let one (t : GTy) (a : Nat) : List Ev :=
-    match t with
-    | .leaf _ _ _ dr => if dr then [.drop a 0] else []
-    | _ => [.drop a 1]
+    (callActs prog.dropCall (callEnv t)).flatMap fun
+      | .runtime => [.drop a 0]
+      | .callGen => [.drop a 1]
+      | .enqueue => []
+      | _ => [.stuck]
   let fields (steps : List Step) (bound : Bool) (fs : List GTy) (b0 : Builder) : String :=
     let rec go (fs : List GTy) (b : Builder) (acc : List Ev) : List Ev :=
       match fs with
       | [] => acc
       | t :: ts =>
         let s := runSteps (layoutOf t) (needsDrop t) 0 0
-          (fun p => if needsDrop t then one t p else []) (fun _ _ => [.stuck])
+          (fun p => one t p) (fun _ _ => [.stuck])
           steps (Iter.start b (layoutOf t) bound)
         go ts s.b (acc ++ s.out)
     " ".intercalate ((go fs b0 []).map fun
@@ -330,9 +333,12 @@ def glueShallow (ds : Array GTy) : String :=
       | [] => acc
       | t :: ts =>
         let s := runSteps (layoutOf t) (needsDrop t) 0 R (fun _ => [.stuck])
-          (fun p q => if needsDrop t then
-              (match t with | .leaf _ _ _ _ => [.clone p q 0] | _ => [.clone p q 1])
-            else [.copy p q (layoutOf t).size])
+          (fun p q => (callActs prog.cloneCall (callEnv t)).flatMap fun
+              | .runtime => [.clone p q 0]
+              | .callGen => [.clone p q 1]
+              | .enqueue => []
+              | .memcpy n => [.copy p q n]
+              | .stuck => [.stuck])
           steps (Iter.start b (layoutOf t) bound)
         cgo ts s.b (acc ++ s.out)
     " ".intercalate ((cgo fs b0 []).map fun
